@@ -129,6 +129,7 @@ func c17Stress(tr, out *ndWriter, rounds int, sd int64) {
 				}()
 				<-start
 				var livehs, released []*c17Handle
+				kbuf := make([]byte, 32)
 				nops := 6 + grng.Intn(10)
 				if ng > 10000 {
 					nops = 3
@@ -136,14 +137,15 @@ func c17Stress(tr, out *ndWriter, rounds int, sd int64) {
 				for op := 0; op < nops; op++ {
 					switch k := grng.Intn(10); {
 					case k < 4 || len(livehs) == 0 && k < 8:
-						key := make([]byte, []int{16, 24, 32}[grng.Intn(3)])
+						// the caller keeps one key buffer and refills it for every garbling (Garble must not retain it)
+						key := kbuf[:[]int{16, 24, 32}[grng.Intn(3)]]
 						grng.Read(key)
 						gb, err := c.Garble(grng, key)
 						if err != nil {
 							fail("garble-error", "Garble: %v", err)
 							return
 						}
-						h := &c17Handle{id: int(atomic.AddInt64(&hid, 1)), g: gb, key: key}
+						h := &c17Handle{id: int(atomic.AddInt64(&hid, 1)), g: gb, key: append([]byte(nil), key...)}
 						// logged after Garble returned: the logged lifetime is inside the real one
 						logEv(poolEv{Ev: "garbled", G: g, H: h.id, Buf: int(uintptr(unsafe.Pointer(&gb.Wires[0])) >> 4 & 0x3fffffff)})
 						if msg := checkGarbling(c, h, grng, nin); msg != "" {
